@@ -94,6 +94,13 @@ def structural(ctx: Ctx, kp):
             ('Mapper.nodes', lambda: HM.nodes(parent=c), set(M.DESC[n])),
             ('leaves', lambda: TC.leaves(c), M.leaves(n)),
             ('Mapper.leaves', lambda: HM.leaves(target=c), M.leaves(n)),
+            # the same queries in the other call form (positional / keyword)
+            ('children [keyword]', lambda: TC.children(target=c), set(M.CHILDREN[n])),
+            ('Mapper.children [positional]', lambda: HM.children(c), set(M.CHILDREN[n])),
+            ('nodes [keyword]', lambda: TC.nodes(target=c), set(M.DESC[n])),
+            ('Mapper.nodes [positional]', lambda: HM.nodes(c), set(M.DESC[n])),
+            ('leaves [keyword]', lambda: TC.leaves(target=c), M.leaves(n)),
+            ('Mapper.leaves [positional]', lambda: HM.leaves(c), M.leaves(n)),
         ):
             ctx.ev()
             ctx.mon('unary_query')
@@ -113,7 +120,9 @@ def structural(ctx: Ctx, kp):
         for b in M.ORDER:
             exp = M.is_child(child=a, parent=b)
             for src, fn in (('TokenCategory.is_child', lambda: TC.is_child(child=TC[a], parent=TC[b])),
-                            ('Mapper.is_child', lambda: HM.is_child(parent=TC[b], child=TC[a]))):
+                            ('Mapper.is_child', lambda: HM.is_child(parent=TC[b], child=TC[a])),
+                            # the mapper's documented positional order is (parent, child)
+                            ('Mapper.is_child [positional: parent, child]', lambda: HM.is_child(TC[b], TC[a]))):
                 ctx.ev()
                 ctx.mon('is_child_pair')
                 got = fn()
@@ -140,7 +149,11 @@ def check_pair(ctx, kp, inc, exc, k, do_match=True):
     snap_inc = list(a_inc) if isinstance(a_inc, (set, list, tuple)) else a_inc
     snap_exc = list(a_exc) if isinstance(a_exc, (set, list, tuple)) else a_exc
     try:
-        res = fn(include=a_inc, exclude=a_exc)
+        if k % 4 == 1:
+            ctx.mon('valid_call_positional')
+            res = HM.valid(a_inc, a_exc)          # the mapper documents (include, exclude) positionally
+        else:
+            res = fn(include=a_inc, exclude=a_exc)
         got = set(_names(res))
         # the caller's argument objects must come back untouched, and the result must not alias them
         for nm, arg, snap in (('include', a_inc, snap_inc), ('exclude', a_exc, snap_exc)):
@@ -258,7 +271,7 @@ def run(ctx: Ctx):
                 'is_child pair, category with children, or include/exclude pair whose closures overlap; distinct by value.')
     ctx.assumptions = ['the documented tree is the Tree: block of README.md, copied into model/cattree.py',
                        'is_child(a, a) is True as its docstring states']
-    ctx.floors = {'is_child grid': ('is_child_pair', 2 * 37 * 37), 'valid calls': ('valid_call', 1000)}
+    ctx.floors = {'is_child grid': ('is_child_pair', 3 * 37 * 37), 'valid calls': ('valid_call', 1000)}
     shard_i, shard_n = ctx.shard if ctx.shard else (0, 1)
     if shard_i == 0:
         structural(ctx, kp)
